@@ -198,6 +198,11 @@ def big_zero_one(I, m, a, dt):
         return VBool(req(f, 0))
     if isinstance(v, VObj) and v.kind == 'numer_of' and not v.nd and k == 'is_zero':
         return VBool(req(v.rat, 0))
+    if isinstance(v, VObj) and v.kind == 'numer_of' and not v.nd and k == 'is_one' and not is_c(v.rat):
+        # the numerator of x (in lowest terms) is 1  <=>  x > 0 and 1/x is a whole number
+        x = rz(v.rat)
+        kk, f = int_frac(I, 1 / x)
+        return VBool(z3.And(x > 0, req(f, 0)))
     x = big_arg(I, v)
     return VBool(x == (0 if k == 'is_zero' else 1))
 @model(r'^<' + BIG + r' as (?:num::|num_traits::)?(?:sign::)?Signed>::(abs|signum|is_negative|is_positive)$')
